@@ -1093,6 +1093,8 @@ class World:
                     den = rng.choice(['L', 'mL', 'g', 'kg', 'mol', 'uL', 'mg', 'mmol', 'kL', 'dag', 'cmol', 'nL'])
                     u = rng.choice(['M', 'mM', 'm', 'uM']) if (not s.is_enzyme() and rng.random() < 0.3) else f'{num}/{den}'
                     o.get_concentration(s, u)
+                    if not s.is_enzyme() and rng.random() < 0.3:
+                        o.get_concentration(s)            # the documented default: the configured concentration display unit
             else:
                 tgt = o if rng.random() < 0.5 else o[rand_selector(rng, o)[0]]
                 tgt.get_volumes(unit=rng.choice(vol_units + [None]))
